@@ -256,6 +256,11 @@ func init() {
 			p.Quick = append(p.Quick, r)
 			p.Thorough = append(p.Thorough, r)
 		}
+		{
+			r := HRun{Entry: "HarnessC03Skeleton", Bound: "a rejected placeholder (3 shapes x 3 quoting styles) at every scalar of the skeleton yields at most one expression diagnostic", Require: []string{"site"}}
+			p.Quick = append(p.Quick, r)
+			p.Thorough = append(p.Thorough, r)
+		}
 		props["C04"] = p
 	}
 
